@@ -945,7 +945,8 @@ func ParseSpecFile(path, src, pkgPath string) (*SpecFile, error) {
 			if curF == nil {
 				return nil, errf(c, "unreachable outside func")
 			}
-			curF.Unreach = append(curF.Unreach, strings.Fields(c.rest)...)
+			// unreachable return: <source text of the return statement> [#k]   (k-th return statement with that text, in source order)
+			curF.Unreach = append(curF.Unreach, strings.TrimSpace(strings.TrimPrefix(strings.TrimSpace(c.rest), "return:")))
 		default:
 			return nil, errf(c, "unknown keyword %q", c.kw)
 		}
